@@ -33,28 +33,36 @@ func goldiFinish(p *goldilocks.Point) goldiOut {
 	return goldiOut{ok: true, out: out, merr: err, x: c09ref.FromLE(x[:]), y: c09ref.FromLE(y[:])}
 }
 
-func goldiFromBytes(in []byte) goldiOut {
+func goldiFromBytes(in []byte) *goldilocks.Point {
 	p, err := goldilocks.FromBytes(in)
 	if err != nil {
-		return goldiOut{}
+		return nil
 	}
-	return goldiFinish(p)
+	return p
 }
 
-func goldiUnmarshal(in []byte) goldiOut {
+func goldiUnmarshal(in []byte) *goldilocks.Point {
 	var p goldilocks.Point
 	if err := p.UnmarshalBinary(in); err != nil {
-		return goldiOut{}
+		return nil
 	}
-	return goldiFinish(&p)
+	return &p
 }
 
-func judgeGoldi(entry string, dec func([]byte) goldiOut, c tc) {
+func judgeGoldi(entry string, dec func([]byte) *goldilocks.Point, c tc) {
 	in := c.data
 	lib.Case([]byte(entry), in)
 	lib.Count("presented:goldilocks:" + c.class)
 	var o goldiOut
-	pan := lib.Try(entry, in, func() { o = dec(in) })
+	var dp *goldilocks.Point
+	pan := lib.Try(entry, in, func() { dp = dec(in) })
+	if pan == nil && dp != nil {
+		if p2 := lib.Try(entry+"/reserialise", in, func() { o = goldiFinish(dp) }); p2 != nil {
+			lib.Count("decoder-accepted:" + entry)
+			viol("accepted-value-panics-on-reserialisation", entry, "", monGoldi, "class", c.class, "input", in, "panic", p2.Value)
+			return
+		}
+	}
 	pt, why := c09ref.Ed448Decode(in)
 	if why != "" && why != "not-on-curve" {
 		lib.Count("noncanonical-presented")
@@ -113,7 +121,7 @@ func goldiScalar(k *big.Int) *goldilocks.Scalar {
 func TestVerifGoldilocks(t *testing.T) {
 	entries := []struct {
 		name string
-		dec  func([]byte) goldiOut
+		dec  func([]byte) *goldilocks.Point
 	}{{"goldilocks.FromBytes", goldiFromBytes}, {"goldilocks.Point.UnmarshalBinary", goldiUnmarshal}}
 	for _, e := range entries {
 		lib.Mandatory("decoder-accepted:"+e.name, "decoder-rejected:goldilocks.FromBytes")
@@ -248,14 +256,16 @@ func judgeFourQ(c tc) {
 	var out [32]byte
 	var buf [32]byte
 	copy(buf[:], in)
-	if pan := lib.Try(entry, in, func() {
-		ok = P.Unmarshal(&buf)
-		if ok {
-			P.Marshal(&out)
-		}
-	}); pan != nil {
+	if pan := lib.Try(entry, in, func() { ok = P.Unmarshal(&buf) }); pan != nil {
 		lib.Count("panic-left-to-C10:" + entry)
 		return
+	}
+	if ok {
+		if pan := lib.Try(entry+"/reserialise", in, func() { Q := P; Q.Marshal(&out) }); pan != nil {
+			lib.Count("decoder-accepted:" + entry)
+			viol("accepted-value-panics-on-reserialisation", entry, "", monFourQ, "class", c.class, "input", in, "panic", pan.Value)
+			return
+		}
 	}
 	if !lib.Eq(buf[:], in) {
 		viol("input-buffer-modified", entry, "", monFourQ, "input", in, "after", buf[:])
@@ -331,7 +341,7 @@ func judgeShared(class string, secret, public []byte) {
 		// refused, as it must be
 	case ok && !wok:
 		// [k]([392]P) is the identity: the peer key has no component in the prime-order subgroup (or k = 0 mod N)
-		viol("identity-result-accepted", entry, class, monFourQ, "secret", secret, "public", public, "shared", sh[:])
+		viol("identity-result-accepted", entry, "", monFourQ, "class", class, "secret", secret, "public", public, "shared", sh[:])
 	case !ok && wok:
 		viol("valid-rejected", entry, "", monFourQ, "class", class, "secret", secret, "public", public)
 	case ok && !lib.Eq(sh[:], want):
@@ -460,6 +470,23 @@ func TestVerifFourQ(t *testing.T) {
 		c := lib.Clone(valid[i%len(valid)])
 		c[15] |= 0x80
 		w.add("y0-bit-127", c)
+	}
+	// y0 and y1 sharing their low 64-bit limb (y0 - y1 borrows across a zero limb inside the field arithmetic)
+	for i := 0; i < lib.Scale(240, 12000); i++ {
+		c := make([]byte, 32)
+		lo := r.Bytes(8)
+		if i%3 == 0 {
+			lo = r.EdgeBytes(8, 1)
+		}
+		copy(c[0:], lo)
+		copy(c[16:], lo)
+		copy(c[8:], r.Bytes(8))
+		copy(c[24:], r.Bytes(8))
+		if i%5 == 0 {
+			copy(c[8:], r.EdgeBytes(8, 1))
+		}
+		c[15] &= 0x7F
+		w.add("shared-low-limb", c)
 	}
 	// x = 0 with the sign bit set: y = 1 and y = -1
 	c := lib.Clone(ident)
